@@ -34,7 +34,7 @@ ITYPE = {"cell": 0, "exterior_facet": 1, "interior_facet": 2, "vertex": 3, "ridg
 
 THEOREMS = [
     "Ffcx.C02.facet_map_vertices", "Ffcx.C02.facet_map_affine", "Ffcx.C02.refgeom_tables",
-    "Ffcx.C02.refgeom_access",
+    "Ffcx.C02.refgeom_access_partial", "Ffcx.C02.refgeom_access_counterexample",
     "Ffcx.C02.entity_by_restriction", "Ffcx.C02.macro_layout",
 ]
 
@@ -1132,7 +1132,7 @@ def corr_layout(chk, d, rng):
 
 
 # =====================================================================================
-#  Reference-facet-edge-vector probe (regression guard of the defect fixed in /repo a42a1b6)
+#  Reference-facet-edge-vector probe (known finding; Lean witness refgeom_access_counterexample)
 # =====================================================================================
 def probe_rfev(chk, rng):
     """ufl.geometry.ReferenceFacetEdgeVectors on every facet of a tetrahedron against basix geometry."""
@@ -1177,7 +1177,7 @@ def probe_rfev(chk, rng):
                  "(access.reference_facet_edge_vectors indexes the flattened table without the facet)",
             payload={"ufl": "ufl.geometry.ReferenceFacetEdgeVectors(mesh)[a, b] * v * ds, P1 tetrahedron",
                      "coordinate_dofs": cp.coordinate_dofs().reshape(-1).tolist(), "failures": bad[:6],
-                     "lean": "Ffcx.C02.refgeom_access / refgeom_tables (part 6)"})
+                     "lean": "Ffcx.C02.refgeom_access_counterexample"})
 
 
 # =====================================================================================
